@@ -662,7 +662,7 @@ def stmt_exact(d, top=True):
     return all(stmt_exact(v, False) for kk, v in d.items() if kk not in ("values", "defaults"))
 
 
-FEATURE_PRIORITY = ["nested-field-wrapper", "positional-shorter", "map-size", "map-key-constraint", "oneOf", "notF", "allOf",
+FEATURE_PRIORITY = ["positional-shorter", "map-size", "map-key-constraint", "oneOf", "notF", "allOf",
                     "sign-with-explicit-bound", "unique-by-python-eq"]
 
 
@@ -692,8 +692,6 @@ def inexact_features(d, acc):
             acc.add("unique-by-python-eq")
         if k == "anyOf" and len(d["fields"]) == 2 and d["fields"][1].get("k") == "noneF":
             pass
-        if k == "struct" and len(d["fields"]) == 1 and set(d["required"]) == {d["fields"][0][0]} and d.get("addl", True) is False:
-            acc.add("nested-field-wrapper")
         if k == "struct" and d.get("inline") and d.get("ignoreNone") is None:
             pass
         for kk, v in d.items():
@@ -1020,12 +1018,6 @@ def oracle(case, impl, model):
             if r.get("valid") and "err" in r.get("deser", {}):
                 # the field(s) in which the document differs from the image of a valid instance
                 msg = r["deser"].get("msg", "")
-                if re.search(r"<\w+\.\w+: 'v_", msg):
-                    # the member of a str-mixin enum class in a KeyError: Enum.__set__ looks a member that is
-                    # also a str up by name
-                    fails.append(("exact:str-mixin-enum-member",
-                                  f"the schema admits the documented by-name form, the Deserializer raises ({r['deser']['err']}: {msg}): " + json.dumps(dj)[:200]))
-                    continue
                 base_ok = bool(impl.get("insts")) and "x" in impl["insts"][0]
                 f1 = culprit_field(case["cls"], msg)
                 suspects = [f1] if f1 is not None else \
